@@ -398,6 +398,53 @@ def time_items_round_trip(ctx, repo, rule):
     ctx.floor(rule, "Time texts written and read back", n, 100)
 
 
+def set_value_encoding(ctx, repo, rule, interp=None):
+    """the SPACK set-value builder, interpreted on a symbolic value: a 1-byte value is the last byte, a 2-byte value the
+    last two bytes big-endian - for EVERY value (a width taken from the value, not from the declared length, writes a
+    word below 256 as one byte: the pack stores it in the HIGH byte) - with the position as the big-endian word before
+    it; other lengths are rejected"""
+    interp = interp or Interp(repo, max_depth=8)
+    b = repo.method("GeckoPackCommandProtocolHandler", "set_value")
+    for ln, nb in ((1, 8), (2, 16)):
+        interp.steps = 0
+        try:
+            msg = interp.call(b, None, [1, 2, 3, 4, 0x0155, ln, BV.symbols("new", nb)])
+            content = msg.attrs.get("_content")
+            tail = content.cells[-ln:]
+            want = SymBytes.pack(">B" if ln == 1 else ">H", [BV.symbols("new", nb)]).cells
+            ok = tail == want
+            # position big-endian just before
+            posb = content.cells[-ln - 2:-ln]
+            ok_pos = posb == [0x01, 0x55]
+        except PyRaise as e:
+            ok, ok_pos = False, False
+        except (Undecided, TypeError) as e:
+            # the builder looks at the VALUE (a comparison, a bit length): decided on concrete values across the field instead
+            import struct as _st
+            tail = None
+            ok = ok_pos = True
+            for v_ in ((0, 1, 0x7F, 0x80, 0xFF) if ln == 1 else (0, 1, 0xFC, 0xFF, 0x100, 0x0155, 0x7FFF, 0x8000, 0xBEEF, 0xFFFF)):
+                try:
+                    interp.steps = 0
+                    msg = interp.call(b, None, [1, 2, 3, 4, 0x0155, ln, v_])
+                    raw = SymBytes.of(msg.attrs.get("_content")).concrete()
+                except (PyRaise, Undecided, TypeError, AttributeError) as e2:
+                    raw = None
+                if not isinstance(raw, (bytes, bytearray)) or bytes(raw[-ln:]) != _st.pack(">B" if ln == 1 else ">H", v_):
+                    ok = False
+                if not isinstance(raw, (bytes, bytearray)) or bytes(raw[-ln - 2:-ln]) != b"\x01\x55":
+                    ok_pos = False
+        ctx.ob(rule, f"{b.qual}::len{ln}-big-endian", ok, f"{b.qual}: a {ln}-byte value is not encoded big-endian at the end of the SPACK message", b.loc,
+               sample={"rule": rule, "builder": b.qual, "length": ln, "tail_cells": repr(tail) if ok else None})
+        ctx.ob(rule, f"{b.qual}::len{ln}-position", ok_pos, f"{b.qual}: the position is not the big-endian word before the data", b.loc)
+    try:
+        interp.steps = 0
+        interp.call(b, None, [1, 2, 3, 4, 5, 3, 7])
+        ctx.ob(rule, f"{b.qual}::rejects-other-lengths", False, f"{b.qual} accepts length 3", b.loc)
+    except PyRaise:
+        ctx.ob(rule, f"{b.qual}::rejects-other-lengths", True, "")
+
+
 def write_through(ctx, repo, rule):
     """the structures' set_value / async_set_value hand (pos, length, newvalue) unchanged to the device-write callback on
     every path: no write is dropped (a "same as the last request" short-cut never learns that the block changed
@@ -526,31 +573,7 @@ def check(ctx):
                        f"{fi.qual}: the device write is not dominated by the read_write test; guards {sorted(facts)}", loc(fi, n.ast))
 
     # ---- R3 device-write encoding ----------------------------------------------
-    b = repo.method("GeckoPackCommandProtocolHandler", "set_value")
-    for ln, nb in ((1, 8), (2, 16)):
-        interp.steps = 0
-        try:
-            msg = interp.call(b, None, [1, 2, 3, 4, 0x0155, ln, BV.symbols("new", nb)])
-            content = msg.attrs.get("_content")
-            tail = content.cells[-ln:]
-            want = SymBytes.pack(">B" if ln == 1 else ">H", [BV.symbols("new", nb)]).cells
-            ok = tail == want
-            # position big-endian just before
-            posb = content.cells[-ln - 2:-ln]
-            ok_pos = posb == [0x01, 0x55]
-        except PyRaise as e:
-            ok, ok_pos = False, False
-        except Undecided as e:
-            raise AnalysisError(f"{b.qual}: {e}")
-        ctx.ob("R3", f"{b.qual}::len{ln}-big-endian", ok, f"{b.qual}: a {ln}-byte value is not encoded big-endian at the end of the SPACK message", b.loc,
-               sample={"rule": "R3", "builder": b.qual, "length": ln, "tail_cells": repr(tail) if ok else None})
-        ctx.ob("R3", f"{b.qual}::len{ln}-position", ok_pos, f"{b.qual}: the position is not the big-endian word before the data", b.loc)
-    try:
-        interp.steps = 0
-        interp.call(b, None, [1, 2, 3, 4, 5, 3, 7])
-        ctx.ob("R3", f"{b.qual}::rejects-other-lengths", False, f"{b.qual} accepts length 3", b.loc)
-    except PyRaise:
-        ctx.ob("R3", f"{b.qual}::rejects-other-lengths", True, "")
+    set_value_encoding(ctx, repo, "R3", interp)
     sim = repo.method("GeckoSimulator", "_on_set_value")
     for ln, nb in ((1, 8), (2, 16)):
         cap = []
